@@ -21,7 +21,8 @@ import oracle as O
 import ex
 
 LEVEL = "other"
-TECHNIQUE = ("FORMULA domain for batch_invert (all zero / non-zero patterns); EXPCHAIN monomial abstract domain over the addition chains + literal limb-vector arithmetic against p + ABSINT interval post-conditions of "
+TECHNIQUE = ("LIMBPOLY (polynomials over limb symbols, opaque carry quotients) for the serial limb kernels; BITS (bit provenance, carry-chain tokens) for from_bytes / as_bytes; "
+             "FORMULA domain for batch_invert (all zero / non-zero patterns); EXPCHAIN monomial abstract domain over the addition chains + literal limb-vector arithmetic against p + ABSINT interval post-conditions of "
              "the byte codecs, over resolved MIR of the serial u64 / u32 (and, for the shared chains, fiat) backends")
 
 P = O.P if hasattr(O, "P") else 2**255 - 19
@@ -43,7 +44,8 @@ def run(tier, R):
         cfgs += [("fiat64", "release", "u64"), ("fiat32", "release", "u32"), ("serial64", "release", "u64")]
     FS = ctx.facts_for(R, [(c, m) for c, m, _ in cfgs])
     R.trust("rustc MIR; mirfacts; lib/eng_expchain.py transfer functions (mul adds exponents, square doubles, pow2k(k) multiplies by 2^k); lib/absint.py for RANGE")
-    R.note("NOT decided: value-exactness of mul / square / pow2k / reduce / as_bytes / the vector (AVX2, IFMA) field; canonicity (< p) of encodings beyond the top bit")
+    R.note("NOT decided: value-exactness of the vector (AVX2, IFMA) field kernels and of the fiat primitives; the serial kernels are decided value-exact modulo p by C01.kernel "
+           "under the no-wrap obligations of C11")
     R.note("NOWRAP is C11 (every overflow obligation of the field kernels, serial u64 + u32)")
     for cfg, mode, backend in cfgs:
         F = FS.get((cfg, mode))
@@ -58,6 +60,12 @@ def run(tier, R):
                 nd += 1
                 (R.ok if ok else R.viol)("C01.decode_bits", I(inst), msg, *(() if ok else (F.loc(f_),)))
             R.floor("C01.decode_bits", I("field decoders decided bit by bit"), nd, 1)
+            import kernel_rules as KR
+            nk = 0
+            for inst, f_, ok, msg in KR.field_kernels(F):
+                nk += 1 if f_ else 0
+                (R.ok if ok else R.viol)("C01.kernel", I(inst), msg, *(() if ok else (F.loc(f_) if f_ else "",)))
+            R.floor("C01.kernel", I("field kernels decided value-exact modulo p"), nk, 9)
             ne = 0
             for inst, f_, ok, msg in CR.field_encode(F):
                 ne += 1
